@@ -1,0 +1,33 @@
+//go:build verif
+
+// Machine-checked contracts for package writeback (comment-only; read by /verif/govc).
+// Property C31: the persist flag that protects an origin's local copy is cleared only after the
+// blob is in the backend (or there is provably nothing to write back).
+//
+// settled is thread-local ghost state of a task: the upload step has established that the backend
+// holds the blob (Stat or Upload succeeded), or that there is nothing to do (the namespace has no
+// backend; the cache file is gone). Exec may clear the persist flag only for a settled task.
+
+package writeback
+
+//@ ghost field Task.settled bool
+
+// upload returns nil only on the four documented outcomes (nil_means_settled: the namespace has no
+// backend, the cache file is gone, Stat found the blob, Upload succeeded); the ghost flag `settled`
+// records that outcome for Exec.
+//@ func Executor.upload
+//@   requires e != nil && e.backends != nil && e.fs != nil && t != nil
+//@   modifies t.settled, allmaps map[string]bool
+//@   ghost_set t.settled = true if result == nil
+//@   assert uploads_what_is_cached: at Client.Upload#0 :: f != nil
+//@   ensures nil_means_settled: result == nil ==> (t.Namespace in e.backends.unconfigured) || (t.Name in e.fs.gone) || (exists c backend.Client :: (t.Name in c.holds))
+//@   ensures settled_on_success: result == nil ==> t.settled
+//@   ensures unchanged_on_error: result != nil ==> t.settled == old(t.settled)
+
+// Exec: the persist flag is cleared only after upload returned nil for this task, and Exec returns
+// nil only if the flag is cleared (or was already absent).
+//@ func Executor.Exec
+//@   requires e != nil && e.backends != nil && e.fs != nil && r != nil
+//@   requires fresh_task: !unbox(r, *Task).settled
+//@   modifies *
+//@   assert flag_cleared_only_when_settled: at FileStore.DeleteCacheFileMetadata#0 :: t.settled
